@@ -192,7 +192,14 @@ var vC05AggPairs = [][2]string{
 func VN_C05_AGG(tier int) int { return len(vC05AggPairs) }
 
 func VH_C05_AGG(pi, n, B, mode int) {
-	st := vSymStore(n, 1, 1, 1, 2, "ab", "012")
+	// concrete keys (any number of pairs), symbolic values
+	ks := make([][]byte, n)
+	vs := make([][]byte, n)
+	for i := 0; i < n; i++ {
+		ks[i] = []byte{byte('a' + i)}
+		vs[i] = vNondetBytes("v"+vItoa(i), 1, 1, "0123")
+	}
+	st := vNewStoreFrom(ks, vs)
 	PlanBatchSize = B
 	batch := mode == 1
 	qa, qe := vC05AggPairs[pi][0], vC05AggPairs[pi][1]
